@@ -119,12 +119,14 @@ def tree_of(path):
 class Transfer:
     """real Sender._handle_answer/_send_file and Receiver._parse_offer over the W2 network"""
 
-    def __init__(self, spec, scripted_receiver=None):
-        self.root = tempfile.mkdtemp(prefix="c04-", dir=SCRATCH)
-        self.src = os.path.join(self.root, "src")
+    def __init__(self, spec, scripted_receiver=None, reuse=None):
+        self.reuse = reuse
+        self.root = reuse.root if reuse else tempfile.mkdtemp(prefix="c04-", dir=SCRATCH)
+        self.src = os.path.join(self.root, "src2" if reuse else "src")
         self.dst = os.path.join(self.root, "dst")
         os.makedirs(self.src)
-        os.makedirs(self.dst)
+        if not reuse:
+            os.makedirs(self.dst)
         self.name = make_payload(self.src, spec)
         self.w = TransitWorld(dict(r_listens=True, conn_fail=False, chunking="whole"), seed())
         self.w.called = {"S": True, "R": True}
@@ -234,7 +236,8 @@ class Transfer:
                 fd.close()
         except Exception:
             pass
-        shutil.rmtree(self.root, ignore_errors=True)
+        if not self.reuse:
+            shutil.rmtree(self.root, ignore_errors=True)
 
     def dest(self):
         return os.path.join(self.dst, self.name)
@@ -307,6 +310,38 @@ def faulty(args):
         return viol, (kind, t.verdict())
     finally:
         t.cleanup()
+
+
+def retry_after_cut(args):
+    """a transfer is cut in the middle; the user tries again into the same directory; the second attempt completes"""
+    spec, k = args
+    t1 = Transfer(spec)
+    try:
+        t1.run(data_limit=k)
+        t1.cut()
+        t1.allow_timers = True
+        t1.run()
+        t2 = Transfer(spec, reuse=t1)
+        try:
+            t2.run()
+            viol = []
+            s, r = t2.verdict()
+            want = tree_of(os.path.join(t2.src, t2.name))
+            if (s, r) != ("ok", "ok"):
+                viol.append(dict(oracle="honest-transfer-completes", sig="retry", msg="retry after a cut at %d ended %r/%r" % (k, t2.sres, t2.rres),
+                                 case=dict(spec=list(spec), cut=k)))
+            else:
+                got = tree_of(t2.dest()) if os.path.exists(t2.dest()) else None
+                if got != want:
+                    viol.append(dict(oracle="byte-exact", sig="retry-after-cut",
+                                     msg="%r: first attempt cut after %d data bytes, second attempt reported success on both sides, but the "
+                                         "received file has %s bytes instead of %s" % (spec, k, len((got or {}).get("", b"")), len(want.get("", b""))),
+                                     case=dict(spec=list(spec), cut=k)))
+            return viol, ("retry", t1.verdict(), t2.verdict())
+        finally:
+            t2.cleanup()
+    finally:
+        t1.cleanup()
 
 
 def forged_ack(args):
@@ -453,6 +488,22 @@ def run(chk):
     chk.add_enum("stream-faults", n, keys, "for each payload: abortive cut after every byte (boundary set for large payloads) of the data direction, one bit flip at "
                  "each of those positions, and a cut before / inside the acknowledgement; oracle: neither side succeeds and no final destination appears "
                  "unless the receiver had every byte; the sender never succeeds without the ack", [list(t[:3]) for t in tasks[::max(1, len(tasks) // 4)]][:4], viol)
+    tasks = []
+    for spec in (("file", 16385), ("file", 40000), ("dir", "nested")):
+        total = lens[spec][0]
+        for k in sorted(set([20, total // 3, total // 2, total - 30])):
+            if 0 < k < total:
+                tasks.append((spec, k))
+    viol = []
+    keys = set()
+    n = 0
+    with ctx.Pool(NPROC) as pool:
+        for v, k in pool.imap_unordered(retry_after_cut, tasks):
+            n += 1
+            keys.add(k)
+            viol.extend(v)
+    chk.add_enum("retry-after-cut", n, keys, "a transfer cut inside the data stream, then a complete second transfer of the same payload into the same "
+                 "directory: both sides succeed and the received tree is byte-exact", [[list(t[0]), t[1]] for t in tasks[:3]], viol)
     tasks = [(("file", s), v) for s in (1, 16385) for v in ("good", "wrong-hash", "ack-no", "empty-ack", "truncated-hash", "upper-hash")]
     viol = []
     keys = set()
